@@ -26,6 +26,12 @@ pub enum Side {
     /// n requests read by a server channel and handed to the application, which drops them all
     /// (half of them before their handler ever ran)
     Server,
+    /// n calls made at once on a roomy client (limits above n) towards a silent peer, tasks
+    /// polled only when woken: all n are transmitted, and all n fail at their deadline
+    ClientManyCalls,
+    /// n requests in flight on a server channel with the same deadline, handlers finish only
+    /// after it has passed, a fresh request arrives: nothing is transmitted for the expired ones
+    ServerManyExpire,
 }
 
 #[derive(Clone, Copy, Debug, serde::Serialize, serde::Deserialize)]
@@ -35,7 +41,17 @@ pub struct BurstCfg {
 }
 
 pub struct BurstHarness {
+    pub prop: &'static str,
     pub cfgs: Vec<BurstCfg>,
+}
+
+/// the burst sizes for C02 (client, many calls) and C06/C08 (server, many expirations)
+pub fn configs_many(side: Side, thorough: bool) -> Vec<BurstCfg> {
+    let mut ns: Vec<usize> = vec![1, 2, 3, 4, 5, 7, 8, 9, 15, 16, 17, 18, 31, 32, 33, 34, 40, 63, 64, 65, 100, 127, 128, 129, 130, 255, 256, 257, 300];
+    if thorough {
+        ns.extend([511, 512, 513, 1000, 1023, 1024, 1025, 2048, 2049]);
+    }
+    ns.into_iter().map(|n| BurstCfg { side, n }).collect()
 }
 
 pub fn configs(thorough: bool) -> Vec<BurstCfg> {
@@ -152,6 +168,187 @@ fn run_client(cfg: &BurstCfg, out: &mut RunOut, text: &mut String) {
     drop(ch);
 }
 
+async fn run_many_calls(cfg: &BurstCfg, out: &mut RunOut, text: &mut String) {
+    let log = Log::new();
+    let core = Rc::new(RefCell::new(Core::new(0, Flavour::Always, 1, None, log.clone())));
+    let mut ccfg = client::Config::default();
+    ccfg.max_in_flight_requests = cfg.n + 1;
+    ccfg.pending_request_buffer = cfg.n + 1;
+    let nc = client::new::<u32, u32, MT>(ccfg, MockTransport::new(core.clone()));
+    let ch = nc.client;
+    let mut dispatch = Box::pin(nc.dispatch);
+    let dflag = Flag::new(true);
+    let dwaker = Waker::from(dflag.clone());
+    type CallFut = Pin<Box<dyn Future<Output = Result<u32, client::RpcError>>>>;
+    let mut calls: Vec<(CallFut, std::sync::Arc<Flag>, Option<String>)> = vec![];
+    for i in 0..cfg.n {
+        let c = ch.clone();
+        let mut ctx = context::current();
+        ctx.deadline = log.t0 + std::time::Duration::from_secs(10);
+        calls.push((Box::pin(async move { c.call(ctx, i as u32).await }), Flag::new(true), None));
+    }
+    // every task runs when (and only when) it has been woken, until nothing is woken
+    macro_rules! settle {
+        () => {
+            for _ in 0..(8 * cfg.n + 64) {
+                let mut any = false;
+                for (f, flag, outc) in calls.iter_mut() {
+                    if outc.is_none() && flag.is_set() {
+                        flag.clear();
+                        any = true;
+                        let w = Waker::from(flag.clone());
+                        let mut cx = Context::from_waker(&w);
+                        if let Poll::Ready(r) = f.as_mut().poll(&mut cx) {
+                            *outc = Some(match r {
+                                Ok(v) => format!("Ok({v})"),
+                                Err(e) => format!("Err({e})"),
+                            });
+                        }
+                    }
+                }
+                if dflag.is_set() {
+                    dflag.clear();
+                    any = true;
+                    let mut cx = Context::from_waker(&dwaker);
+                    if dispatch.as_mut().poll(&mut cx).is_ready() {
+                        out.violations.push(viol("C02-burst-dispatch-ended", "the dispatch ended with handles alive".into()));
+                        return;
+                    }
+                }
+                if !any {
+                    break;
+                }
+            }
+        };
+    }
+    settle!();
+    let sent = core.borrow().wire.iter().filter(|m| matches!(m, Msg::Req { .. })).count();
+    text.push_str(&format!("requests on the wire once everything is quiet: {sent} of {}\n", cfg.n));
+    out.nontrivial = cfg.n > 1;
+    if sent != cfg.n {
+        out.violations.push(viol(
+            "C02-burst-queued-not-sent",
+            format!("{} calls made at once: with every task idle and nothing woken only {sent} requests have been transmitted", cfg.n),
+        ));
+    }
+    tokio::time::advance(std::time::Duration::from_millis(10_001)).await;
+    settle!();
+    let pending = calls.iter().filter(|c| c.2.is_none()).count();
+    text.push_str(&format!("calls still pending 1 ms after the common deadline: {pending}\n"));
+    if pending > 0 {
+        out.violations.push(viol(
+            "C02-burst-call-pending",
+            format!("{} calls made at once to a silent peer: {pending} are still pending after their deadline with nothing left that could wake anybody", cfg.n),
+        ));
+    }
+    let wrong = calls.iter().filter(|c| c.2.as_deref().map(|o| o != "Err(the request exceeded its deadline)").unwrap_or(false)).count();
+    if wrong > 0 {
+        out.violations.push(viol("C02-burst-outcome", format!("{wrong} of {} calls to a silent peer ended with something other than the deadline error", cfg.n)));
+    }
+    drop(calls);
+    drop(ch);
+}
+
+async fn run_many_expire(cfg: &BurstCfg, out: &mut RunOut, text: &mut String) {
+    let log = Log::new();
+    let core: Rc<RefCell<Core<ClientMessage<u32>>>> = Rc::new(RefCell::new(Core::new(1, Flavour::Always, 1, None, log.clone())));
+    let chan = BaseChannel::new(tarpc::server::Config { pending_response_buffer: cfg.n + 2 }, ST::new(core.clone()));
+    let mut reqs = Box::pin(chan.requests());
+    let flag = Flag::new(true);
+    let waker = Waker::from(flag.clone());
+    let mut cx = Context::from_waker(&waker);
+    let mk = |id: u64, secs: u64| {
+        let mut ctx = context::current();
+        ctx.deadline = log.t0 + std::time::Duration::from_secs(secs);
+        ClientMessage::Request(Request { context: ctx, id, message: id as u32 })
+    };
+    for i in 0..cfg.n {
+        core.borrow_mut().push_in(InItem::Item(mk(i as u64, 10)));
+    }
+    let gate = Rc::new(std::cell::Cell::new(false));
+    let mut futs: Vec<Option<Pin<Box<dyn Future<Output = ()>>>>> = vec![];
+    macro_rules! accept {
+        ($want:expr) => {{
+            let mut res: Result<(), String> = Ok(());
+            for _ in 0..(2 * $want + 8) {
+                if futs.len() >= $want {
+                    break;
+                }
+                match reqs.as_mut().poll_next(&mut cx) {
+                    Poll::Ready(Some(Ok(r))) => {
+                        let g = gate.clone();
+                        futs.push(Some(Box::pin(r.execute(tarpc::server::serve(move |_, x: u32| {
+                            let g = g.clone();
+                            async move {
+                                // finishes at the first poll after the gate has opened
+                                futures::future::poll_fn(|_| if g.get() { Poll::Ready(()) } else { Poll::Pending }).await;
+                                Ok(x + 5000)
+                            }
+                        })))));
+                    }
+                    Poll::Ready(Some(Err(e))) => {
+                        res = Err(format!("server stream error {e}"));
+                        break;
+                    }
+                    Poll::Ready(None) => break,
+                    Poll::Pending => {}
+                }
+            }
+            res
+        }};
+    }
+    if let Err(e) = accept!(cfg.n) {
+        out.machinery_error = Some(format!("burst harness: {e}"));
+        return;
+    }
+    if futs.len() != cfg.n {
+        out.machinery_error = Some(format!("burst harness: {} of {} requests handed over", futs.len(), cfg.n));
+        return;
+    }
+    for f in futs.iter_mut() {
+        let _ = f.as_mut().unwrap().as_mut().poll(&mut cx);
+    }
+    // the common deadline passes while nobody polls the channel; then every handler finishes
+    // (its response goes into the channel's response buffer) and a fresh request arrives
+    tokio::time::advance(std::time::Duration::from_millis(10_001)).await;
+    gate.set(true);
+    for f in futs.iter_mut() {
+        if f.as_mut().unwrap().as_mut().poll(&mut cx).is_ready() {
+            *f = None;
+        }
+    }
+    core.borrow_mut().push_in(InItem::Item(mk(1_000_000, 3600)));
+    let want = cfg.n + 1;
+    let _ = accept!(want);
+    for _ in 0..(2 * cfg.n + 16) {
+        flag.clear();
+        let _ = reqs.as_mut().poll_next(&mut cx);
+        for f in futs.iter_mut() {
+            if let Some(ff) = f.as_mut() {
+                if ff.as_mut().poll(&mut cx).is_ready() {
+                    *f = None;
+                }
+            }
+        }
+        if !flag.is_set() {
+            break;
+        }
+    }
+    out.nontrivial = cfg.n > 1;
+    let late: Vec<u64> = core.borrow().wire.iter().filter_map(|m| if let Msg::Resp { id, .. } = m { if *id < 1_000_000 { Some(*id) } else { None } } else { None }).collect();
+    text.push_str(&format!("responses transmitted for expired requests: {late:?}\n"));
+    if !late.is_empty() {
+        out.violations.push(viol(
+            "C06-burst-response-after-deadline",
+            format!("{} requests expired together (handlers finished only afterwards) and a fresh request arrived: responses for {} of them were transmitted after their deadline (first id {})", cfg.n, late.len(), late[0]),
+        ));
+    }
+    let inf = reqs.channel().in_flight_requests();
+    if inf > 1 {
+        out.violations.push(viol("C06-burst-not-expired", format!("{} requests expired together: in_flight_requests() still reports {inf} after the channel went idle past the deadline (1 fresh request is in flight)", cfg.n)));
+    }
+}
+
 fn run_server(cfg: &BurstCfg, out: &mut RunOut, text: &mut String) {
     let log = Log::new();
     let core: Rc<RefCell<Core<ClientMessage<u32>>>> = Rc::new(RefCell::new(Core::new(1, Flavour::Always, 1, None, log.clone())));
@@ -222,7 +419,7 @@ fn run_server(cfg: &BurstCfg, out: &mut RunOut, text: &mut String) {
 
 impl Harness for BurstHarness {
     fn name(&self) -> String {
-        "burst/C11".into()
+        format!("burst/{}", self.prop)
     }
     fn n_configs(&self) -> usize {
         self.cfgs.len()
@@ -253,12 +450,14 @@ pub fn run_cfg(cfg: &BurstCfg, render: bool) -> RunOut {
         rt.block_on(tokio::task::unconstrained(async {
             match cfg.side {
                 Side::Server => run_server(cfg, &mut out, &mut text),
+                Side::ClientManyCalls => run_many_calls(cfg, &mut out, &mut text).await,
+                Side::ServerManyExpire => run_many_expire(cfg, &mut out, &mut text).await,
                 _ => run_client(cfg, &mut out, &mut text),
             }
         }))
     }));
     if r.is_err() {
-        out.violations.push(viol("C11-burst-panic", format!("{:?} n={}: {}", cfg.side, cfg.n, take_panic())));
+        out.violations.push(viol("burst-panic", format!("{:?} n={}: {}", cfg.side, cfg.n, take_panic())));
     }
     use std::hash::{Hash, Hasher};
     let mut h = std::collections::hash_map::DefaultHasher::new();
